@@ -735,4 +735,20 @@ def _triple_payload(ty):
         pre, suf = "(" + L + ", ", ", " + L + ")"
         if ty.startswith(pre) and ty.endswith(suf) and len(ty) > len(pre) + len(suf):
             return ty[len(pre):-len(suf)]
+    # any other location type: a 3-tuple whose first and last components agree
+    if ty.startswith("(") and ty.endswith(")"):
+        parts, depth, cur = [], 0, ""
+        for ch in ty[1:-1]:
+            if ch in "<([":
+                depth += 1
+            elif ch in ">)]":
+                depth -= 1
+            if ch == "," and depth == 0:
+                parts.append(cur.strip())
+                cur = ""
+            else:
+                cur += ch
+        parts.append(cur.strip())
+        if len(parts) == 3 and parts[0] == parts[2] and parts[1]:
+            return parts[1]
     return None
